@@ -152,6 +152,8 @@ pub enum Corruption {
     CsvWithGroup,
     JsonOptionWithOther,
     TextOptionWithOther,
+    /// an element index that does not fit 64 bits (`.l#99999999999999999999`)
+    HugeIndex(Slot, bool),
 }
 
 impl Cfg {
@@ -345,7 +347,7 @@ fn slots_of(cfg: &Cfg) -> Vec<Slot> {
 }
 
 pub fn arb_case() -> BoxedStrategy<Case18> {
-    (arb_cfg(), any::<u16>(), 0u8..16, any::<u16>(), prop::sample::select(vec!["junk", ")", "x y", "1", "(size .)", "]", "="]), prop::sample::select(vec!["UP", "DOWN", "ascending", "D", "1", "DESCC", "DESC junk", "asc )", "desc asc", "ASC 1", "desc,", "ASC ASC"]), any::<u64>(), prop::bool::weighted(0.2))
+    (arb_cfg(), any::<u16>(), 0u8..17, any::<u16>(), prop::sample::select(vec!["junk", ")", "x y", "1", "(size .)", "]", "="]), prop::sample::select(vec!["UP", "DOWN", "ascending", "D", "1", "DESCC", "DESC junk", "asc )", "desc asc", "ASC 1", "desc,", "ASC ASC"]), any::<u64>(), prop::bool::weighted(0.2))
         .prop_map(|(mut cfg, slot_pick, kind, cut, garbage, baddir, order, via_file)| {
             let slots = slots_of(&cfg);
             let slot = if slots.is_empty() {
@@ -370,6 +372,7 @@ pub fn arb_case() -> BoxedStrategy<Case18> {
                 12 => Corruption::CsvWithGroup,
                 13 => Corruption::JsonOptionWithOther,
                 14 => Corruption::TextOptionWithOther,
+                15 => Corruption::HugeIndex(slot, cut % 2 == 0),
                 _ => Corruption::DanglingSeparator(slot, cut % 2 == 0),
             };
             Case18 { cfg, corruption, order, via_file }
@@ -513,8 +516,21 @@ pub fn corrupt(cfg: &Cfg, c: &Corruption) -> Option<Vec<String>> {
         Corruption::SetDuplicate => {
             let (n, e, m) = cfg.sets.first()?.clone();
             let mut a = cfg.args(None);
-            a.push(format!("--set={}{}={}", if m { "@" } else { "" }, n, e));
+            // the same name again, written with blanks around it half of the time (names are trimmed)
+            let (pre, post) = [("", ""), (" ", ""), ("", " "), (" ", "  ")][(e.len() + n.len()) % 4];
+            a.push(format!("--set={}{}{}{}={}", pre, if m { "@" } else { "" }, n, post, e));
             Some(a)
+        }
+        Corruption::HugeIndex(s, twenty) => {
+            if matches!(s, Slot::Set(_)) {
+                return None;
+            }
+            let idx = if *twenty { "99999999999999999999" } else { "18446744073709551616" };
+            let t = match s {
+                Slot::Select(i) => format!(".l#{} = n{}", idx, i),
+                _ => format!(".l#{}", idx),
+            };
+            Some(cfg.args(Some((s, t))))
         }
         Corruption::UnknownContext(s) => {
             if matches!(s, Slot::Set(_)) {
@@ -644,10 +660,11 @@ impl Check for C18Reject {
             Corruption::CsvWithGroup => "csv_with_group",
             Corruption::JsonOptionWithOther => "json_option_with_other_style",
             Corruption::TextOptionWithOther => "text_option_with_other_style",
+            Corruption::HugeIndex(..) => "index_beyond_64_bits",
         };
         let late_slot = matches!(
             &case.corruption,
-            Corruption::UnknownFunction(s) | Corruption::ArityLow(s) | Corruption::ArityHigh(s) | Corruption::MissingParen(s) | Corruption::Truncate(s, _) | Corruption::TrailingGarbage(s, _) | Corruption::DanglingSeparator(s, _) | Corruption::UnknownContext(s)
+            Corruption::UnknownFunction(s) | Corruption::ArityLow(s) | Corruption::ArityHigh(s) | Corruption::MissingParen(s) | Corruption::Truncate(s, _) | Corruption::TrailingGarbage(s, _) | Corruption::DanglingSeparator(s, _) | Corruption::UnknownContext(s) | Corruption::HugeIndex(s, _)
                 if !matches!(s, Slot::Group)
         ) || matches!(&case.corruption, Corruption::BadDirection(..) | Corruption::SetWithoutEquals | Corruption::SetEmptyName(_) | Corruption::SetDuplicate);
         let headers_style = case.cfg.out == 1 || case.cfg.out_opts.iter().any(|o| o == "--headers") || matches!(&case.corruption, Corruption::CsvWithGroup | Corruption::CsvWithoutSelection);
